@@ -7,6 +7,7 @@ import MosVerif.Lemmas.Ttl
 import MosVerif.Lemmas.TtlHist
 import MosVerif.Lemmas.TtlSpec
 import MosVerif.Lemmas.RedisCache
+import MosVerif.Lemmas.StoreRace
 import MosVerif.Generated.Facts
 namespace MosVerif.C08
 open MosVerif.Ttl
@@ -430,5 +431,31 @@ theorem pins_9 :
 /-- the model's constants are the pinned ones -/
 theorem pins_model : (Facts.ttl_defaultMaxCacheTtl : Int) = defaultMaxCacheTtl ∧
     (Facts.ttl_maxLimit : Int) = maxCacheTtlLimit := by decide
+
+/-! ### concurrency of two stores of one key (Model/StoreRace: every backend call is a step of its own) -/
+
+/-- ★ an error response never displaces a live positive entry, for every interleaving: a plain (positive) store
+    and a set-if-absent (error) store of one key run concurrently over whatever the backend held before
+    (nothing, an expired leftover, a live entry); when both have returned the key holds the positive value.
+    This is what licenses the other cache models to treat the backend calls of one `Store` as one atomic step. -/
+theorem concurrent_negative_never_displaces (s0 : StoreRace.Slot) (sched : List Bool)
+    (hf : StoreRace.finished (StoreRace.run true sched (StoreRace.init s0)) = true) :
+    (StoreRace.run true sched (StoreRace.init s0)).slot = .live .p :=
+  StoreRace.locked_final_is_plain s0 sched hf
+
+/-- ★ and the end state is that of both serial orders (serializability of the two stores) -/
+theorem concurrent_stores_serializable (s0 : StoreRace.Slot) (sched : List Bool)
+    (hf : StoreRace.finished (StoreRace.run true sched (StoreRace.init s0)) = true) :
+    (StoreRace.run true sched (StoreRace.init s0)).slot = (StoreRace.serialPN true s0).slot ∧
+    (StoreRace.run true sched (StoreRace.init s0)).slot = (StoreRace.serialNP true s0).slot :=
+  StoreRace.locked_is_serial s0 sched hf
+
+/-- the hypothesis is satisfiable (the round-robin schedule finishes), and the lock of the plain branch is
+    necessary: without it an expired leftover and one particular schedule leave the refused value in the cache -/
+theorem concurrent_stores_nonvacuous :
+    (∀ s0, StoreRace.finished (StoreRace.serialPN true s0) = true) ∧
+    (∃ sched, StoreRace.finished (StoreRace.run false sched (StoreRace.init (.dead .init))) = true ∧
+      (StoreRace.run false sched (StoreRace.init (.dead .init))).slot = .live .n) :=
+  ⟨fun s0 => (StoreRace.serial_finishes s0).1, StoreRace.unlocked_can_displace⟩
 
 end MosVerif.C08
